@@ -37,7 +37,7 @@ void XavierUniform::apply(Tensor &x) const {
     PRIMITIV_THROW_ERROR(
         "XavierUniform initializer can be used to only matrices or vectors.");
   }
-  const float bound = scale_ * std::sqrt(6. / (s[0] + s[1]));
+  const float bound = scale_ * std::sqrt(6. / (static_cast<double>(s[0]) + s[1]));
   x = x.device().random_uniform(s, -bound, bound);
 }
 
@@ -47,7 +47,7 @@ void XavierNormal::apply(Tensor &x) const {
     PRIMITIV_THROW_ERROR(
         "XavierNormal initializer can be used to only matrices or vectors.");
   }
-  const float sd = scale_ * std::sqrt(2. / (s[0] + s[1]));
+  const float sd = scale_ * std::sqrt(2. / (static_cast<double>(s[0]) + s[1]));
   x = x.device().random_normal(s, 0, sd);
 }
 
@@ -58,8 +58,8 @@ void XavierUniformConv2D::apply(Tensor &x) const {
         "XavierUniformConv2D initializer can be used to only tensors with "
         "up to 4 dimensions.");
   }
-  const std::uint32_t fan_in = s[0] * s[1] * s[2];
-  const std::uint32_t fan_out = s[0] * s[1] * s[3];
+  const double fan_in = static_cast<double>(s[0]) * s[1] * s[2];
+  const double fan_out = static_cast<double>(s[0]) * s[1] * s[3];
   const float bound = scale_ * std::sqrt(6. / (fan_in + fan_out));
   x = x.device().random_uniform(s, -bound, bound);
 }
@@ -71,8 +71,8 @@ void XavierNormalConv2D::apply(Tensor &x) const {
         "XavierNormalConv2D initializer can be used to only tensors with "
         "up to 4 dimensions.");
   }
-  const std::uint32_t fan_in = s[0] * s[1] * s[2];
-  const std::uint32_t fan_out = s[0] * s[1] * s[3];
+  const double fan_in = static_cast<double>(s[0]) * s[1] * s[2];
+  const double fan_out = static_cast<double>(s[0]) * s[1] * s[3];
   const float sd = scale_ * std::sqrt(2. / (fan_in + fan_out));
   x = x.device().random_normal(s, 0, sd);
 }
